@@ -36,6 +36,7 @@ struct Step {
 	Method outcome = Method::NONE;
 	bool curReportedSuccess = false, curReportedFailure = false, anyFailNow = false, anySuccNow = false;
 	bool userClearAfterReport = false, planEditedThisCycle = false;
+	long ownFailSeq = -1;   // delivery (to the active state) in which it reported failure itself and no success report followed within that delivery
 	bool sawFire = false;
 
 	std::vector<Round> rounds;
@@ -87,6 +88,7 @@ struct Inst {
 	PlanVec actualPlan;
 	bool actualPlanKnown = false;
 
+	uint64_t delSeq = 0;   // running number of the current delivery
 	bool lastDelValid = false; Method lastDelM = Method::NONE; uint8_t lastDelSid = 0;   // the delivery before the current one (same API call)
 
 	bool active() const { return cur >= 0; }
@@ -138,6 +140,10 @@ struct World {
 	// (a snapshot taken mid-processing); the driver later runs update()/react()/query() on that copy with only the C05
 	// monitors reporting (nothing else is known about such a copy)
 	void (*snapshotHook)(Inst&, Method) = nullptr;
+	// C16 "attached later, or detached midway": in the toggling logger mode the logger is also attached / detached from
+	// inside callbacks, between two deliveries of one call (decided by the aux stream, like every logger decision)
+	void (*attachHook)(Inst&, bool) = nullptr;
+	bool logToggleInCallbacks = false;
 	bool snapPending = false;
 	bool snapSuccMay[32] = {}, snapFailMay[32] = {}, snapTasksAdded = false;   // what may be outstanding in the authority when the snapshot is taken
 	bool inSnapshotCopy = false;                 // the copy constructor of a snapshot is running (it must not call back)
@@ -250,6 +256,7 @@ struct World {
 			in.delOpen = true; in.delM = m; in.delSid = sid; in.delOrder.clear();
 			in.delOrder.push_back(inj);
 			in.lastDelValid = true; in.lastDelM = m; in.lastDelSid = sid;
+			++in.delSeq;
 			onDelivery(in, m, sid);
 		} else {
 			if (in.logExpectMethod) flushMethodRecord(in, "user code of the same delivery");
@@ -769,6 +776,11 @@ struct World {
 		flags |= F_REPORT;
 		if (success) { in.succMay[target] = in.succMust[target] = true; s.anySuccNow = true; }
 		else { in.failMay[target] = in.failMust[target] = true; s.anyFailNow = true; }
+		// the status a delivery hands back to the cycle is the last one set during it; a failure handed back sticks to the cycle
+		if (fromCallback && (s.op == OP_UPDATE || s.op == OP_REACT) && s.planPhase == 0 && s.outcomes == 0 && s.guardDeliveries == 0 && in.delOpen && static_cast<int>(in.delSid) == s.cur0 && callerSid == in.delSid) {
+			if (!success && static_cast<int>(target) == s.cur0) s.ownFailSeq = static_cast<long>(in.delSeq);
+			else if (success && s.ownFailSeq == static_cast<long>(in.delSeq)) s.ownFailSeq = -1;
+		}
 		// a report for the active state made during the phases of this cycle - by the state itself or, naming it, by the root head
 		if (fromCallback && (s.op == OP_UPDATE || s.op == OP_REACT) && (static_cast<int>(callerSid) == s.cur0 || callerSid == ROOT) && static_cast<int>(target) == s.cur0 && s.planPhase == 0 && s.outcomes == 0 && s.guardDeliveries == 0) {
 			if (success) s.curReportedSuccess = true; else s.curReportedFailure = true;
@@ -933,7 +945,9 @@ inline void World::closePlanWindow(Inst& in) {
 			V("C08", "head-task-did-not-fire", fmt("state %d (active) reported success, the first task %s has it as origin, no failure was reported, yet the task did not fire; plan after %s; %s", cur0, before[0].str().c_str(), planStr(after).c_str(), tail().c_str()));
 	}
 	// converse: failure of the active state with a non-empty plan must deliver planFailed (visible with a root head only)
-	if (failVisible && !before.empty() && s.curReportedFailure && !s.userClearAfterReport && in.tasksAdded && s.outcomes == 0) {
+	// (after a Plan::clear() by the program the per-state failure bit is gone; the failure then travels with the cycle's own
+	// status only, which a later success report overwrites)
+	if (failVisible && !before.empty() && ((s.curReportedFailure && !s.userClearAfterReport) || s.ownFailSeq >= 0) && in.tasksAdded && s.outcomes == 0) {
 		stats.add("converse_planFailed_obligations");
 		V("C09", "planFailed-not-delivered", fmt("active state %d reported failure with plan %s but planFailed was not delivered in this cycle; %s", cur0, planStr(before).c_str(), tail().c_str()));
 	}
